@@ -195,7 +195,7 @@ func checkC20(w *World, r *Report) {
 	if watcher == nil {
 		r.Viol("escalation.kill", hname+": watcher goroutine", w.Pos(handler.Pos()), "the exec handler has no watcher closure")
 	} else {
-		wr := w.EnumPaths(watcher, EnumOpts{})
+		wr := w.EnumPaths(watcher, EnumOpts{Inline: true})
 		r.Count("paths", len(wr.Paths))
 		okEsc := len(wr.Paths) > 0
 		why := ""
@@ -234,7 +234,7 @@ func checkC20(w *World, r *Report) {
 			// timeout > 0: SIGINT now, SIGKILL after Sleep(timeout) in a goroutine — unconditionally
 			delayedOK := false
 			if delayed != nil {
-				dr := w.EnumPaths(delayed, EnumOpts{})
+				dr := w.EnumPaths(delayed, EnumOpts{Inline: true})
 				delayedOK = len(dr.Paths) > 0
 				for _, dp := range dr.Paths {
 					slept, killed := -1, -1
@@ -279,6 +279,21 @@ func checkC20(w *World, r *Report) {
 				continue
 			}
 			pid := w.AP(c.Args[0])
+			// a signalling helper (`func (g processGroup) signal(sig)`: Kill(-int(g), sig)): the negated
+			// value is one of its parameters — every call site then counts, with what it passes
+			if neg, ok := w.Resolve(c.Args[0]).(*ssa.UnOp); ok && neg.Op.String() == "-" {
+				if prm, ok := w.Resolve(neg.X).(*ssa.Parameter); ok && prm.Parent() == fn && fn.Parent() == nil {
+					leaves := w.argOrigins(fn, paramIdxOf(prm), 0)
+					if len(leaves) > 0 {
+						nKill += len(leaves) - 1
+						for _, l := range leaves {
+							lp := "-" + w.AP(l.v)
+							r.Check(strings.HasSuffix(lp, ".Process.Pid"), "target.group", FuncName(l.fn)+": "+FuncName(fn)+"("+lp+", …)", w.InstrPos(l.in), "the group id handed to the signalling helper is the started command's pid, which the helper negates: the command's whole process group", "the signalling helper is given "+w.AP(l.v)+", not the pid of the started command")
+						}
+						continue
+					}
+				}
+			}
 			r.Check(strings.HasPrefix(pid, "-") && strings.HasSuffix(pid, ".Process.Pid"), "target.group", key+"("+pid+", "+w.AP(c.Args[1])+")", w.InstrPos(ci), "the target is the negated pid: the command's whole process group", "the signal goes to "+pid+", not to the negated pid of the command: only the shell dies, its children survive")
 		}
 	}
